@@ -998,6 +998,278 @@ def gen_C07(seed, tier):
     return finish(g, out, samples, len(sigs))
 
 
+
+# ------------------------------------------------------------------------------------------------
+# C19: Lua loader vs API
+def lua_num(x):
+    x = F(x)
+    return "(%d/%d)" % (x.numerator, x.denominator) if x.denominator != 1 else ("%d" % x.numerator if x >= 0 else "(%d)" % x.numerator)
+
+
+def lua_vec(v):
+    return "{" + ", ".join(lua_num(x) for x in v) + "}"
+
+
+def lua_mat3(m9):
+    return "{" + ", ".join(lua_vec(m9[3 * i:3 * i + 3]) for i in range(3)) + "}"
+
+
+LUA_TYPED = {"Spherical": "JointTypeSpherical", "EulerZYX": "JointTypeEulerZYX", "EulerXYZ": "JointTypeEulerXYZ",
+             "EulerYXZ": "JointTypeEulerYXZ", "TranslationXYZ": "JointTypeTranslationXYZ", "FloatingBase": "JointTypeFloatingBase"}
+
+
+class LuaDesc:
+    """a model description as data: rendered to Lua text and to the equivalent API calls"""
+
+    def __init__(self, g, nframes, prefix="b"):
+        self.g = g
+        self.frames = []
+        self.mb = G.ModelBuilder(g)
+        self.ids = {"ROOT": 0}
+        ident = [F(1), F(0), F(0), F(0), F(1), F(0), F(0), F(0), F(1), F(0), F(0), F(0)]
+        for k in range(nframes):
+            name = "%s%d" % (prefix, k)
+            parent = g.r.choice(list(self.ids.keys()))
+            jk = g.r.choice(["fixed", "typed", "axes", "axes", "axes1", "axes1"])
+            fr = {"name": name, "parent": parent}
+            fr["frame"] = g.frame() if g.r.random() < 0.8 else None
+            fr["frame_part"] = g.r.choice(["both", "r", "E"]) if fr["frame"] else None
+            fr["body"] = g.body() if g.r.random() < 0.85 else None
+            fr["body_part"] = g.r.choice(["all", "nocom", "noinertia"]) if fr["body"] else None
+            if k == 0 and jk == "fixed":
+                jk = "axes1"
+            if jk == "fixed":
+                fr["joint"] = ("fixed", g.r.choice(["omit", "empty"]))
+            elif jk == "typed":
+                fr["joint"] = ("typed", g.r.choice(list(LUA_TYPED.keys())))
+            elif jk == "axes1":
+                kind = g.r.choice(["RevoluteX", "RevoluteY", "RevoluteZ", "HelicalPure", "Helical", "PrismaticAxis"])
+                if kind.startswith("Revolute"):
+                    a = [F(0)] * 6; a["XYZ".index(kind[-1])] = F(1)
+                elif kind == "PrismaticAxis":
+                    a = [F(0)] * 3 + g.unit_vec()
+                else:
+                    js, _, _ = self.mb.jspec(kind)
+                    a = [G.parse_fr(x) for x in js.split()[2:]]
+                fr["joint"] = ("axes", [a])
+            else:
+                n = g.r.choice([2, 3, 4, 6])
+                ax, _ = self.mb.emul_axes(n)
+                fr["joint"] = ("axes", ax)
+            self.frames.append(fr)
+            # effective values (defaults of the loader)
+            frame = list(fr["frame"]) if fr["frame"] else list(ident)
+            if fr["frame_part"] == "r":
+                frame[0:9] = ident[0:9]
+            if fr["frame_part"] == "E":
+                frame[9:12] = [F(0)] * 3
+            if fr["body"] is None:
+                body = [F(0)] * 13 + [0]
+            else:
+                body = list(fr["body"])
+                if fr["body_part"] == "nocom":
+                    body[1:4] = [F(0)] * 3
+                if fr["body_part"] == "noinertia":
+                    body[4:13] = [F(1), F(0), F(0), F(0), F(1), F(0), F(0), F(0), F(1)]
+            pid = self.ids[parent]
+            j = fr["joint"]
+            if j[0] == "fixed":
+                nid = self.mb.add_fixed(pid, name, body=body, frame=frame)
+            else:
+                if j[0] == "typed":
+                    spec, qk, nb = "T " + j[1], None, None
+                    nid = self.mb.add(pid, j[1], name, body=body, frame=frame)
+                else:
+                    # raw axes
+                    spec = "A %d %s" % (len(j[1]), " ".join(G.frs(a) for a in j[1]))
+                    self.mb.lines.append("add %d %s %s %s %s" % (pid, G.frs(frame), spec, G.frs(body), name))
+                    self.mb.qkinds += [self.mb.axis_kind(a) for a in j[1]]
+                    self.mb.n_movable += len(j[1])
+                    nid = self.mb.n_movable - 1
+                    self.mb.ids.append(nid); self.mb.real_ids.append(nid)
+            self.ids[name] = nid
+            fr["eff"] = (frame, body)
+        self.gravity = g.vec(-3, 3) if g.r.random() < 0.7 else None
+
+    def lua_text(self, constraint_sets=None, undefined_parent=None):
+        L = ["model = {"]
+        if self.gravity is not None:
+            L.append("  gravity = %s," % lua_vec(self.gravity))
+        L.append("  frames = {")
+        for fr in self.frames:
+            L.append("    {")
+            L.append('      name = "%s",' % fr["name"])
+            par = fr["parent"]
+            if undefined_parent and fr["name"] == undefined_parent[0]:
+                par = undefined_parent[1]
+            L.append('      parent = "%s",' % par)
+            if fr["frame"] is not None:
+                parts = []
+                if fr["frame_part"] in ("both", "r"):
+                    parts.append("r = %s" % lua_vec(fr["frame"][9:12]))
+                if fr["frame_part"] in ("both", "E"):
+                    parts.append("E = %s" % lua_mat3(fr["frame"][0:9]))
+                L.append("      joint_frame = { %s }," % ", ".join(parts))
+            j = fr["joint"]
+            if j[0] == "fixed":
+                if j[1] == "empty":
+                    L.append("      joint = {},")
+            elif j[0] == "typed":
+                L.append('      joint = { "%s" },' % LUA_TYPED[j[1]])
+            else:
+                L.append("      joint = { %s }," % ", ".join(lua_vec(a) for a in j[1]))
+            if fr["body"] is not None:
+                b = fr["body"]
+                parts = ["mass = %s" % lua_num(b[0])]
+                if fr["body_part"] != "nocom":
+                    parts.append("com = %s" % lua_vec(b[1:4]))
+                if fr["body_part"] != "noinertia":
+                    parts.append("inertia = %s" % lua_mat3(b[4:13]))
+                L.append("      body = { %s }," % ", ".join(parts))
+            L.append("    },")
+        L.append("  },")
+        if constraint_sets:
+            L.append("  constraint_sets = {")
+            for nm, cons in constraint_sets.items():
+                L.append("    %s = {" % nm)
+                for c in cons:
+                    L.append("      { " + ", ".join(c) + " },")
+                L.append("    },")
+            L.append("  },")
+        L.append("}")
+        L.append("return model")
+        return "\n".join(L)
+
+
+def gen_C19(seed, tier):
+    g = G.Gen(seed)
+    out, samples, sigs = [], [], set()
+    n = nmodels(tier, 30, 200)
+    prev = None
+    for i in range(n):
+        d = LuaDesc(g, g.r.randint(2, 6))
+        mb = d.mb
+        cid = "c19load_%d" % i
+        text = ["case " + cid]
+        text += ["luafile A"] + d.lua_text().splitlines() + ["luaend"]
+        # something else is loaded first: the same names with another structure
+        other = LuaDesc(g, g.r.randint(2, 5))
+        text += ["luafile B"] + other.lua_text().splitlines() + ["luaend"]
+        order = g.r.choice(["A", "BA", "BAA"])
+        for ch in order:
+            text.append("@impl luaload %s" % ch)
+        if d.gravity is not None:
+            text.append("@model gravity %s" % G.frs(d.gravity))
+        text += ["@model " + l for l in mb.lines]
+        text += ["dump", "params"]
+        names = [fr["name"] for fr in d.frames]
+        for nm in names[:3] + ["ROOT", "nosuchbody"]:
+            text.append("getid %s" % nm)
+        if mb.nv > 0:
+            text += mb.state_lines() + ["call ID", "call CRBA 1", "call NE"]
+        out += text
+        g.stats["order:" + order] += 1
+        for fr in d.frames:
+            g.stats["frame-joint:" + (fr["joint"][0] + (":" + fr["joint"][1] if fr["joint"][0] != "axes" else ":%d" % len(fr["joint"][1])))] += 1
+        sigs.add(tuple((fr["joint"][0], fr["joint"][1] if fr["joint"][0] != "axes" else len(fr["joint"][1]), fr["parent"] == "ROOT") for fr in d.frames))
+        if len(samples) < 2:
+            samples.append({"case": cid, "frames": [(fr["name"], fr["parent"], str(fr["joint"])[:60]) for fr in d.frames], "order": order})
+    # a frame whose parent is not defined in its own file: must not pick up ids of an earlier model
+    m2 = nmodels(tier, 8, 40)
+    for i in range(m2):
+        d0 = LuaDesc(g, 4)             # defines b0..b3
+        d = LuaDesc(g, 3, prefix="c")  # other names
+        # let frame c2 refer to "b3", which only exists in the other file
+        victim = d.frames[-1]["name"]
+        cid = "c19undefparent_%d" % i
+        text = ["case " + cid, "luafile P"] + d0.lua_text().splitlines() + ["luaend"]
+        text += ["luafile A"] + d.lua_text(undefined_parent=(victim, "b3")).splitlines() + ["luaend"]
+        text += ["@impl luaload P", "@impl luaload A"]
+        # content-only meaning: an unknown parent name resolves like the base
+        d2 = copy.deepcopy(d)
+        mb = G.ModelBuilder(g)
+        ids = {"ROOT": 0}
+        for fr in d.frames:
+            par = "ROOT" if fr["name"] == victim else fr["parent"]
+            frame, body = fr["eff"]
+            j = fr["joint"]
+            if j[0] == "fixed":
+                nid = mb.add_fixed(ids[par], fr["name"], body=body, frame=frame)
+            elif j[0] == "typed":
+                nid = mb.add(ids[par], j[1], fr["name"], body=body, frame=frame)
+            else:
+                mb.lines.append("add %d %s A %d %s %s %s" % (ids[par], G.frs(frame), len(j[1]), " ".join(G.frs(a) for a in j[1]), G.frs(body), fr["name"]))
+                mb.n_movable += len(j[1]); nid = mb.n_movable - 1
+            ids[fr["name"]] = nid
+        if d.gravity is not None:
+            text.append("@model gravity %s" % G.frs(d.gravity))
+        elif d0.gravity is not None:
+            pass
+        text += ["@model " + l for l in mb.lines] + ["dump", "params"]
+        out += text
+        g.stats["malformed:undefined-parent"] += 1
+    # constraint sets
+    m3 = nmodels(tier, 10, 60)
+    for i in range(m3):
+        d = LuaDesc(g, g.r.randint(3, 5))
+        mb = d.mb
+        names = [fr["name"] for fr in d.frames]
+        cons, api = [], ["cs_new"]
+        kinds = []
+        for k in range(g.r.randint(1, 3)):
+            if g.r.random() < 0.5:
+                b = g.r.choice(names)
+                pt = g.vec(-1, 1)
+                E = g.rot(0.3)
+                cols = [[E[0], E[3], E[6]], [E[1], E[4], E[7]], [E[2], E[5], E[8]]]
+                nn = g.r.randint(1, 3)
+                if nn == 1 and g.r.random() < 0.5:
+                    cons.append(['constraint_type = "contact"', 'body = "%s"' % b, "point = %s" % lua_vec(pt), "normal = %s" % lua_vec(cols[0])])
+                else:
+                    cons.append(['constraint_type = "contact"', 'body = "%s"' % b, "point = %s" % lua_vec(pt),
+                                 "normal_sets = {%s}" % ", ".join(lua_vec(c) for c in cols[:nn])])
+                for c in cols[:nn]:
+                    api.append("cs_contact %d %s %s 4294967295" % (d.ids[b], G.frs(pt), G.frs(c)))
+                kinds.append("contact%d" % nn)
+            else:
+                bp, bs = g.r.sample(names, 2)
+                XP, XS = g.frame(), g.frame()
+                na = g.r.randint(1, 3)
+                axes = []
+                for a in g.r.sample(range(6), na):
+                    v = [F(0)] * 6; v[a] = F(1); axes.append(v)
+                stab = g.r.random() < 0.5
+                tst = g.r.choice([F(1, 10), F(1, 5), F(1, 2)])
+                row = ['constraint_type = "loop"', 'predecessor_body = "%s"' % bp, 'successor_body = "%s"' % bs,
+                       "predecessor_transform = { r = %s, E = %s }" % (lua_vec(XP[9:12]), lua_mat3(XP[0:9])),
+                       "successor_transform = { r = %s, E = %s }" % (lua_vec(XS[9:12]), lua_mat3(XS[0:9]))]
+                if na == 1 and g.r.random() < 0.5:
+                    row.append("axis = %s" % lua_vec(axes[0]))
+                else:
+                    row.append("axis_sets = {%s}" % ", ".join(lua_vec(a) for a in axes))
+                if stab:
+                    row += ["enable_stabilization = true", "stabilization_parameter = %s" % lua_num(tst)]
+                cons.append(row)
+                for a in axes:
+                    api.append("cs_loop %d %d %s %s %s %d %s 4294967295" % (d.ids[bp], d.ids[bs], G.frs(XP), G.frs(XS), G.frs(a),
+                                                                             1 if stab else 0, G.fr(tst if stab else F(1, 10))))
+                kinds.append("loop%d" % na)
+        cid = "c19cs_%d" % i
+        text = ["case " + cid, "luafile A"] + d.lua_text({"setA": cons}).splitlines() + ["luaend", "@impl luaload A setA"]
+        if d.gravity is not None:
+            text.append("@model gravity %s" % G.frs(d.gravity))
+        text += ["@model " + l for l in mb.lines]
+        text += ["@model " + l for l in api]
+        text += ["dump", "csdump"]
+        if mb.nv > 0:
+            text += mb.state_lines() + ["call CJ 1 0", "call CPE 1 0"]
+        out += text
+        for k in kinds:
+            g.stats["cs:" + k] += 1
+    out.append("@impl luarm")
+    return finish(g, out, samples, len(sigs))
+
+
 NOT_YET = {}
 
 COMMON_ASSUMPTIONS = ["double evaluation is compared with exact rational evaluation up to 1e-8*scale",
@@ -1064,6 +1336,12 @@ PROPS = {
             "rule": "twin models: Euler ZYX/XYZ/YXZ/ZXY and XYZ translation as built-in joint vs emulated 3-DoF joint vs chain of 1-DoF joints through massless bodies; floating base vs translation + spherical; RevoluteX as built-in / custom / axis / revolute; custom EulerZYX vs built-in; fixed body vs inertia merged beforehand (merged parameters from the exact model); sibling branches added in swapped order (coordinate permutation); each below a random prefix, with a child joint and a fixed body attached; compared on InverseDynamics, ForwardDynamics, CRBA, NonlinearEffects, CoM, energies, point position / velocity / acceleration, Jacobians, M^-1 tau",
             "explanation": "direct statement on the implementation (twin comparison) plus correspondence of every variant with the Lean model and its spec monitors",
             "assumptions": COMMON_ASSUMPTIONS},
+    "C19": {"gen": gen_C19, "harness": "driver_lua",
+            "extra_srcs": lambda: [os.path.join(os.environ.get("VERIF_REPO", "/repo"), "addons/luamodel/luamodel.cc"),
+                                   os.path.join(os.environ.get("VERIF_REPO", "/repo"), "addons/luamodel/luatables.cc")],
+            "rule": "random descriptions in the documented format (frames with 0-6 axis lists, the named 3-DoF joints and floating base, fixed frames as omitted / empty joint, joint_frame with r / E / both / omitted, body with optional com / inertia / omitted) printed to Lua text (numbers as exact quotients) and loaded by the real loader after 0-2 other loads in the same process; constraint sets with contact (normal / normal_sets) and loop (axis / axis_sets, stabilization) tables; a malformed stream with a parent name that only an earlier file defines; compared with the equivalent API calls executed by the Lean construction model: structural dump, all parameters, name lookups, constraint-set structure, dynamics",
+            "explanation": "correspondence: loader output = API model (exact structural comparison + numeric parameters + dynamics); the Lua interpreter itself is not modelled (descriptions enter as data)",
+            "assumptions": COMMON_ASSUMPTIONS + ["Lua 5.3 evaluates (p/q) to the correctly rounded double"]},
     "C12": {"gen": gen_C12, "rule": RULE_MODELS + "; random contact plane (unit normal, point off the origin)", "explanation": "monitor: definitions of mass, CoM, momentum, energies, ZMP on jets of the pose specification",
             "assumptions": COMMON_ASSUMPTIONS},
 }
